@@ -108,7 +108,7 @@ func checkC12r(run *Run, res *Result) {
 	}
 	for m, s := range ms {
 		if s.allEndT >= 0 && s.started && !stopped[m] && !closeCalled[m] && endT-s.allEndT > bound && len(s.open) == 0 {
-			res.violate("C12", "R4-did-not-stop-after-last-final-end", s.allEndN, "after-rebalance",
+			res.violate("C12", "R4-did-not-stop-after-last-final-end", s.allEndN, "after-rebalance-membership-"+cfg.Membership,
 				"member %d (finite mode, session %d): every vBucket stream had ended for good at event #%d; %s later the client still has not stopped", m, s.sessions, s.allEndN, fmtDur(endT-s.allEndT))
 		}
 	}
